@@ -12,7 +12,7 @@ CHECKS = {
  "C02": ("runtime monitor: differential oracle, library codec vs independent table-driven reference codec transcribed from doc/*.pdf, octet-for-octet",
          "Exploration with an independent reference: every generated assignment is encoded by the library and by a reference codec written from the specification tables and compared octet for octet; reference images (optional parameters shuffled) are decoded by the library and compared value for value; the destination-count x body-length grid 0..255^2 of the four submit types is enumerated completely.",
          "Trusted: the transcription in spec/wire_tables.json (each table cites the document section), the 250-line reference codec. Known findings: SMGP Active_Test_Resp encoder emits a body octet; LoginResp trailing-NUL trim.", "DESIGN.md §5 C02"),
- "C03": ("runtime resource monitors: panic capture, logical step budget (Tick hooks), runtime/metrics allocation delta around every decoder/parser; strict reference parser for the truncated-mandatory clause",
+ "C03": ("runtime resource monitors: panic capture, logical step budget (Tick hooks), runtime/metrics allocation delta around every decoder/parser; strict reference parser for the truncated-mandatory clause; thorough tier adds Go native coverage-guided fuzzing whose corpus is re-judged by the same monitors",
          "Exploration under resource monitors: 57 IDecodes, 5 dispatchers and 45 auxiliary parsers are run on structurally mutated reference images (every truncation point, every length/count field x boundary values, every offset x 5 octet values, trailing garbage 1..16, optional-parameter tail surgery) and on unstructured strings up to 64 KiB; each call is judged for panic, step-budget overrun (hang) and allocation beyond 2 MiB + 64*len; acceptance of an input whose mandatory part is incomplete is judged by an independent strict parser.",
          "Trusted: runtime/metrics allocation accounting (minimum of three runs), Tick call sites (loops without a hook are covered only by the wall-clock watchdog => inconclusive). DecodeBlocked is exempt from the allocation clause (frame sizes clamped to 1 MiB).", "DESIGN.md §5 C03, §3.3"),
  "C04": ("runtime monitor: sequential cursor model (shadow state) checked after every Codec.Decode / DecodeBlocked step, over generated streams x arrival schedules x injected read faults",
